@@ -61,6 +61,9 @@ type c08Result struct {
 // sources chosen so that every kind of constant and every shared structure is exercised
 var c08Fixed = []string{
 	`S matches "^a.*a$"`, `T matches "[0-9]+$" or S matches "(?i)ALPHA"`,
+	// patterns computed at run time (OpMatches, not OpMatchesConst): several different ones in flight at once, so
+	// that a cache of compiled patterns shared between runs is written concurrently (seed c08_5)
+	`S matches (B ? "^a.*a$" : "b+$")`, `T matches (B ? "[0-9]+$" : "^x") or S matches (B ? "(?i)ALPHA" : "q")`, `(S + T) matches (I > 0 ? "a.*[0-9]" : "^$")`,
 	`I in [1, 2, 3, 5, 8]`, `S in ["a", "alpha", "bb"]`, `J not in [1, 2, 3]`, `T not in ["x", "y"]`,
 	`[1, 2, 3, 4][I % 4]`, `["p", "q", "r"][I % 3]`, `len(1..100)`, `I in 1..10`, `map(1..5, {# * I})`,
 	`Add(I, J) + Twice(I) + In.Double()`, `Concat(I, S, B)`, `Upper(S) + Greet(T)`, `PIn.Name() + In.S`, `Fib(20) + Fib(I)`,
